@@ -120,6 +120,27 @@ def run_framing(inp):
         await face.open()
         face.reader = GuardedReader()
         face.callback = cb
+        if inp.get('schedule') == 'burst':
+            # every byte and the end of the stream are there before run() gets to run at all: the complete packets are
+            # owed all the same (the statement is about the bytes, not about how they were paced)
+            for c in chunks:
+                face.reader.feed_data(c)
+            face.reader.feed_eof()
+            runner = case.spawn(face.run())
+            try:
+                await asyncio.wait_for(asyncio.shield(runner), 2.0)
+            except asyncio.TimeoutError:
+                viol('no-shutdown', 'run() still running 2 s after end of stream (burst, mid-packet=%s)' % mid_packet)
+                runner.cancel()
+                return
+            await case.settle()
+            if got != expected:
+                viol('partial-delivered' if mid_packet and len(got) > len(expected) else 'delivery-burst',
+                     'stream and its end delivered at once: the callback received %s, the stream contains the complete '
+                     'packets %s' % (show(got), show(expected)))
+            if face.running:
+                viol('no-shutdown', 'face.running is still True after end of stream')
+            return
         runner = case.spawn(face.run())
         for c in chunks:
             face.reader.feed_data(c)
@@ -190,6 +211,12 @@ def framing_cases(tier, rng):
                 cases.append({'seq': seq, 'cuts': [rng.randrange(1, t)], 'trunc': t})
             if t > 2 and tier == 'thorough':
                 cases.append({'seq': seq, 'cuts': sorted(rng.sample(range(1, t), 2)), 'trunc': t})
+    # the same streams delivered together with their end, before run() gets a turn
+    burst = []
+    for c in cases:
+        if len(c['cuts']) <= 1 and (tier == 'thorough' or len(c['seq']) <= 2):
+            burst.append(dict(c, schedule='burst'))
+    cases += burst if tier == 'thorough' else burst[::3]
     # big packets: cuts in the header region and around the boundaries
     bigseqs = [[6], [7], [8], [6, 1], [1, 6, 3], [7, 0], [2, 7, 6], [8, 6], [4, 8, 5]]
     for seq in bigseqs:
